@@ -138,11 +138,14 @@ RefsOfDef(d) == CASE d.k = "alias"  -> RefsOfType(d.t)
                   [] d.k = "union"  -> (IF d.parent = "" THEN {} ELSE {d.parent}) \cup UNION {RefsOfType(d.tags[i].t) : i \in DOMAIN d.tags}
 RefsClosed(sc) == \A n \in DOMAIN sc : RefsOfDef(sc[n]) \subseteq DOMAIN sc
 \* `void_tag_gets_type` only applies where the tag exists and is Void
+\* nsa imports nsb: no type of nsb may come to refer to a type of nsa (a circular import is not a legal spec; it also keeps
+\* the types acyclic for the value generator: K is used inside P (Q.q1)), under whatever name a rename has given it
+NsAcyclic(sc) == \A n \in DOMAIN sc : sc[n].ns = "nsb" => \A m \in RefsOfDef(sc[n]) : sc[m].ns = "nsb"
 EditOk(sc, ed) ==
     /\ RefsClosed(ed[2])
+    /\ NsAcyclic(ed[2])
     /\ ed[1].e = "void_tag_gets_type" =>
-        \* the value generator needs acyclic types: K is used inside P (Q.q1)
-        /\ (ed[1].at = "K" => ed[1].t \notin {TRef("K"), TRef("P")})
+        /\ ed[1].t # TRef(ed[1].at)
         /\ \E i \in DOMAIN sc[ed[1].at].tags :
               /\ sc[ed[1].at].tags[i].t # ed[2][ed[1].at].tags[i].t
               /\ sc[ed[1].at].tags[i].t.k = "void"
